@@ -85,8 +85,15 @@ def _case(draw):
         muts = [['sub', draw(st.integers(0, total - 1)), draw(st.one_of(st.sampled_from(gens.MUT_BYTES), st.integers(0, 255)))]]
     else:
         muts = draw(st.lists(gens.mutation(), min_size=1, max_size=4))
-    return {'framing': framing, 'uid': uid, 'frames': [f.hex() for f in frames], 'muts': muts, 'cut': draw(gens.cuts()), 'dir': direction,
+    case = {'framing': framing, 'uid': uid, 'frames': [f.hex() for f in frames], 'muts': muts, 'cut': draw(gens.cuts()), 'dir': direction,
             'via_server': draw(st.integers(0, 3)) == 0 and framing != 'tcp' and direction == 'req'}
+    if not case['via_server'] and draw(st.integers(0, 3)) == 0:
+        # the receiver's unit list also holds the broadcast address (what broadcast_enable does) or 255: then every unit id passes
+        # the unit filter, and the frames of the stream are addressed to a unit that is NOT in the list
+        case['units_extra'] = [draw(st.sampled_from([0, 0, 255]))]
+        other = draw(st.sampled_from([9, 0x21, 100, 246]))
+        case['frames'] = [refframe.build(framing, other, refframe.parse_one(framing, f)['pdu'], 0x1100 + i, 0).hex() for i, f in enumerate(frames)]
+    return case
 
 
 def strategy(tier):
@@ -132,6 +139,13 @@ def sweeps(tier):
             for bit in range(len(fr) * 8):
                 cases.append({'framing': framing, 'uid': 0x11, 'frames': [fr.hex()], 'muts': [['flip', bit // 8, bit % 8]], 'cut': ['whole'], 'via_server': False})
     out.append(('all-single-bit-flips', cases, True))
+    cases = []
+    for framing in FRAMINGS:
+        for pdu in pdus[:2]:
+            fr = refframe.build(framing, 0x21, pdu, 7, 0)
+            for bit in range(len(fr) * 8):
+                cases.append({'framing': framing, 'uid': 0x11, 'units_extra': [0], 'frames': [fr.hex()], 'muts': [['flip', bit // 8, bit % 8]], 'cut': ['whole'], 'via_server': False})
+    out.append(('single-bit-flips-of-frames-for-another-unit-with-broadcast-enabled', cases, True))
     if tier == 'thorough':
         cases = []
         for framing in FRAMINGS:
@@ -179,7 +193,7 @@ def run_case(case):
     frames = [bytes.fromhex(f) for f in case['frames']]
     original = b''.join(frames)
     stream = gens.apply_mutations(original, case['muts'])
-    labels = ['framing:' + framing] + ['mut:' + m[0] for m in case['muts']]
+    labels = ['framing:' + framing] + ['mut:' + m[0] for m in case['muts']] + (['unit-list-with-broadcast-address'] if case.get('units_extra') else [])
     chunks = [c for c in gens.apply_cuts(stream, case['cut'])]
     found = refframe.find_frames(framing, stream)
     nt = stream != original or not case['muts']
@@ -197,7 +211,7 @@ def run_case(case):
         fed += c
         got = []
         try:
-            fr.processIncomingPacket(c, got.append, [uid], single=False)
+            fr.processIncomingPacket(c, got.append, [uid] + list(case.get('units_extra') or []), single=False)
         except Exception:
             fr.resetFrame()          # what the serial handler does
         new = proxy.seen[len(delivered):]
@@ -213,7 +227,13 @@ def run_case(case):
                 discs.append(Disc('unjustified-delivery', 'tcp %s: a %d-byte PDU %s was delivered as function %d, whose PDU has %d bytes (MBAP length not consistent with the message); fed %s' % (
                     direction, len(pdu), pdu.hex()[:40], pdu[0], fixed, fed.hex()[:120])))
                 break
-            if not refframe.justified(framing, fed, duid, pdu, tid, pid):
+            if m is None:
+                # handed to the decoder but not delivered as a message (the decoder refused it): the unit is not known from a
+                # message object; a checksum-valid / length-consistent frame for ANY unit justifies the hand-over
+                ok_ = any(refframe.justified(framing, fed, u_, pdu, tid, pid) for u_ in ([uid] + [x for x in range(256) if x != uid]))
+            else:
+                ok_ = refframe.justified(framing, fed, duid, pdu, tid, pid)
+            if not ok_:
                 discs.append(Disc('unjustified-delivery', '%s: PDU %s (unit %r) handed to the decoder but no valid frame for it in the bytes fed so far (%s); original %s, mutations %r' % (
                     framing, pdu.hex()[:60], duid, fed.hex()[:120], original.hex()[:120], case['muts'])))
                 break
